@@ -89,7 +89,7 @@ def run(c):
     obs = c.run_harness("/usr/bin/unshare", cases, args=("-m", "--propagation", "private", "sh", "-c",
                                                           "mount --bind \"$VERIF_SCRATCH\" \"$VERIF_SCRATCH\" && mount --make-shared \"$VERIF_SCRATCH\" && exec " + exe),
                         env=env, timeout=1500)
-    items, src, mask_items = [], [], []
+    items, src, mask_items, maskdir_items = [], [], [], []
     for x, (ti, impl), o in zip(cases, metas, obs):
         if "harness_err" in o:
             raise RuntimeError(o["harness_err"])
@@ -159,6 +159,14 @@ def run(c):
         src.append(x["id"])
         if o.get("kcore_read", None) is not None:
             pass
+        if impl != "ns" and any(m["kind"] == "proc" and m["target"] == "proc" for m in kept) and pr.get("maskdir_write", -2) != -2:
+            ml = [ln.split(" ") for ln in (o.get("mountinfo") or "").splitlines() if ln.split(" ")[4] == "/proc/acpi"]
+            cb_ = lambda v: "true" if v else "false"
+            if ml:
+                f = ml[-1]
+                maskdir_items.append("(%s, true, %s, %s)" % (cb_(x["init_cmd"]), cb_(f[f.index("-") + 1] == "tmpfs"), cb_("ro" in f[5].split(","))))
+            else:
+                maskdir_items.append("(%s, false, false, false)" % cb_(x["init_cmd"]))
         if impl != "ns" and any(m["kind"] == "proc" for m in kept) and pr["kcore_read"] != -2:
             mask_items.append("(%s, %s)" % ("true" if x["init_cmd"] else "false", "true" if pr["kcore_read"] > 0 else "false"))
         c.cov["masked_directory_probed"] = c.cov.get("masked_directory_probed", 0) + (1 if pr.get("maskdir_write", -2) != -2 else 0)
@@ -211,7 +219,12 @@ def run(c):
     body = HDR + ("Definition cs : list (list (nat * list (list nat * bool)) * list decl * list (list nat * bool) * list (list nat * bool)) := %s.\n"
                   "Definition M := Eval vm_compute in failing table_ok cs.\nPrint M.\n") % coq_list(items)
     body += "Definition ms : list (bool * bool) := %s.\nDefinition MM := Eval vm_compute in failing mask_ok ms.\nPrint MM.\n" % coq_list(mask_items)
+    body += ("From GS Require Import Kernel.EvalMask.\nDefinition mds : list (bool * bool * bool * bool) := %s.\n"
+             "Definition MD := Eval vm_compute in failing maskdir_ok mds.\nPrint MD.\n" % coq_list(maskdir_items))
     cout = c.coq_eval("tables", body, timeout=1200)
+    if c.parse_nums(c.parse_printed(cout, "MD").replace("%N", "")):
+        dis.append({"relation": "maskdir_ok (a masked directory is covered by a read-only tmpfs iff the container has /dev/null)", "cases": maskdir_items})
+    c.cov["masked_directories_compared_in_coq"] = len(maskdir_items)
     if c.parse_nums(c.parse_printed(cout, "MM").replace("%N", "")):
         dis.append({"relation": "mask_ok (a masked /proc file is readable iff mask_one says exposed)", "cases": mask_items})
     c.cov["mask_observations_compared_in_coq"] = len(mask_items)
